@@ -12,6 +12,7 @@ rc=0
 for P in "$@"; do
   out=$(/verif/check "$P" --repo "$D/repo" --no-evidence 2>&1)
   code=$?
+  if [ $code -eq 1 ] && ! echo "$out" | grep -q "^VIOLATION property="; then code=3; echo "$out" | tail -3; fi   # checker crash: not a detection
   echo "== $P exit=$code"
   echo "$out" | grep -E "^(VIOLATION|INCONCLUSIVE|  key|  found|KNOWN)" | head -${TRYMUT_LINES:-12}
   [ $code -eq 1 ] || rc=1
